@@ -285,16 +285,23 @@ func attrCube(c *engine.Ctx) {
 	for fi := range fds {
 		for gi := fi; gi < len(fds); gi++ {
 			for combo := 0; combo < 16; combo++ {
-				for bg := 0; bg < 2; bg++ {
+				for bg := 0; bg < 4; bg++ {
 					f, g, combo, bg := fds[fi], fds[gi], combo, bg
 					c.Case(func() any {
-						return map[string]any{"f": f.Name(), "g": g.Name(), "A.f,B.f,A.g,B.g set": fmt.Sprintf("%04b", combo), "background-populated": bg == 1}
-					}, func(t *engine.T) *engine.Violation { return cubeCase(t, fds, f, g, combo, bg == 1) })
+						return map[string]any{"f": f.Name(), "g": g.Name(), "A.f,B.f,A.g,B.g set": fmt.Sprintf("%04b", combo), "background-populated": bg&1 == 1, "empty-collections-allocated": bg&2 != 0}
+					}, func(t *engine.T) *engine.Violation {
+						allocatedEmpty = bg&2 != 0
+						defer func() { allocatedEmpty = false }()
+						return cubeCase(t, fds, f, g, combo, bg&1 == 1)
+					})
 				}
 			}
 		}
 	}
 }
+
+// allocatedEmpty: see c09.AllocatedEmpty.
+var allocatedEmpty bool
 
 func mkNode(fds []protoreflect.FieldDescriptor, f, g protoreflect.FieldDescriptor, setF, setG bool, k int, tag string, bg bool) *sbom.Node {
 	n := &sbom.Node{Id: "shared"}
@@ -314,6 +321,9 @@ func mkNode(fds []protoreflect.FieldDescriptor, f, g protoreflect.FieldDescripto
 				gen.SetField(r, fd, k, tag)
 			}
 		}
+	}
+	if allocatedEmpty {
+		gen.AllocateEmpty(n)
 	}
 	return n
 }
